@@ -1,4 +1,4 @@
-import GateryModel.C05.Model
+import GateryModel.C05.ModelX
 /-!
 Driver for C05: reads the harness protocol on stdin. For every case it parses the program into the model's AST,
 runs the frontend model (`build`) once, and for every input valuation the harness simulated computes
@@ -76,6 +76,7 @@ inductive PStmt where
   | elseS (body : List PStmt)
   | elseifS (c : Expr) (body : List PStmt)
   | elseIf2 (c : Expr) (body : List PStmt)
+  | ist (s : IStmt)
   deriving Inhabited
 
 instance : Inhabited Prog := ⟨.done⟩
@@ -89,6 +90,18 @@ partial def toProg : List PStmt → Prog
   | .elseS b :: r => .elseS (toProg b) (toProg r)
   | .elseifS c b :: r => .elseifS c (toProg b) (toProg r)
   | .elseIf2 c b :: r => .elseIf2 c (toProg b) (toProg r)
+  | .ist s :: r => .istmt s (toProg r)
+
+partial def hasI : List PStmt → Bool
+  | [] => false
+  | .ist _ :: _ => true
+  | .ifS _ b :: r | .elseS b :: r | .elseifS _ b :: r | .elseIf2 _ b :: r => hasI b || hasI r
+  | _ :: r => hasI r
+
+def parseKind (s : String) : Option IKind :=
+  match s with | "u" | "z" => some .u0 | "s" => some .s | "o" => some .u1 | _ => none
+
+def parseInt (s : String) : Int := if s.startsWith "-" then -((s.drop 1).toString.toNat! : Int) else (s.toNat! : Int)
 
 def toks (line : String) : Tok := { t := ((line.trimAscii.toString.splitOn " ").filter (· ≠ "")).toArray }
 
@@ -122,6 +135,27 @@ partial def parseStmts (h : IO.FS.Stream) (hist : Hist) (depth : Nat) : IO (Opti
       let (ty, k) := k.next
       match parseExpr k with
       | some (e, _) => out := out.push (.decl (parseTy ty) e)
+      | none => ok := false
+    | "IL" =>      -- IL <u|s> <int>        UInt x = lit / SInt x{lit}
+      let (kd, k) := k.next
+      let (v, _) := k.next
+      match parseKind kd with
+      | some kd => out := out.push (.ist (.declLit kd (parseInt v)))
+      | none => ok := false
+    | "IX" =>      -- IX <z|o> <expr>       UInt x = zext(e) / oext(e)
+      let (kd, k) := k.next
+      match parseKind kd, parseExpr k with
+      | some kd, some (e, _) => out := out.push (.ist (.declExt kd e))
+      | _, _ => ok := false
+    | "IC" => let (y, _) := k.next; out := out.push (.ist (.declCopy y.toNat!))
+    | "IA" => let (x, k) := k.next; let (v, _) := k.next; out := out.push (.ist (.assignLit x.toNat! (parseInt v)))
+    | "IV" => let (x, k) := k.next; let (y, _) := k.next; out := out.push (.ist (.assignVar x.toNat! y.toNat!))
+    | "CM" =>      -- CM <op> <x> <y>       Bit t = (x op y)
+      let (o, k) := k.next
+      let (x, k) := k.next
+      let (y, _) := k.next
+      match parseOp o with
+      | some o => out := out.push (.ist (.declCmp o x.toNat! y.toNat!))
       | none => ok := false
     | "F" =>
       let (ty, k) := k.next
@@ -187,7 +221,7 @@ def taint (ρ : List Val) (ns : Nodes) : Array Bool :=
     let g (i : Nat) : Bool := tv.getD i false
     tv.push (match n with
       | .input _ | .const _ => false
-      | .sig a | .not a | .op1 _ a | .dflt a => g a
+      | .sig a | .not a | .op1 _ a | .dflt a | .pad a _ _ => g a
       | .and a b | .or a b | .op2 _ a b => g a || g b
       | .rewire ins _ => ins.any g
       | .mux s ins =>
@@ -213,7 +247,8 @@ structure Case where
   id : String := ""
   ins : List Ty := []
   prog : Option Prog := none
-  built : Option BState := none
+  built : Option XState := none
+  useX : Bool := false         -- the program has integer-literal statements: `runX` / `buildX`; otherwise the proven `run` / `build`
   text : Array String := #[]
   reported : Bool := false     -- at most one DIFF and one PROPFAIL line per case
   reportedP : Bool := false
@@ -234,20 +269,25 @@ partial def loop (h : IO.FS.Stream) (d : D) (c : Case) : IO D := do
   | "case" =>
     let (id, k2) := k1.next
     -- `case <id> alias`: the program contains the generator's alias-cache pattern (dynamic selections sharing index / width / option count)
-    let d := if (k2.next).1 == "alias" then { d with hist := d.hist.bump "pattern:alias-cache-key" } else d
+    let marks := k2.t.toList.drop k2.i
+    let d := if marks.contains "alias" then { d with hist := d.hist.bump "pattern:alias-cache-key" } else d
+    -- `intlit`: width-less variables (integer literals / zext / oext) with wider / narrower / equal re-assignments
+    let d := if marks.contains "intlit" then { d with hist := d.hist.bump "pattern:integer-literal-variables" } else d
     loop h { d with cases := d.cases + 1 } { id := id }
   | "ins" =>
     let ins := (k.t.toList.drop 1).map parseTy
     let (ss, hist) ← parseStmts h d.hist 0
     let prog := ss.map toProg
-    let built := prog.bind fun p => build p (initState ins)
+    let useX := (ss.map hasI).getD false
+    -- programs of the core fragment go through the functions the theorems are about
+    let built := prog.bind fun p => if useX then buildX p (initX ins) else (build p (initState ins)).map fun B => { core := B, ivars := [] }
     let mut d := { d with hist := hist }
-    if let some B := built then
-      d := { d with nodes := d.nodes + B.nodes.size }
+    if let some X := built then
+      d := { d with nodes := d.nodes + X.core.nodes.size }
     if prog.isNone then
       IO.println s!"DIFF case={c.id} what=unparsed-program"
       d := { d with diffs := d.diffs + 1 }
-    loop h d { c with ins := ins, prog := prog, built := built }
+    loop h d { c with ins := ins, prog := prog, built := built, useX := useX }
   | "ex" =>
     -- the frontend threw: the model must reject the program, too
     let mut d := d
@@ -280,44 +320,63 @@ partial def loop (h : IO.FS.Stream) (d : D) (c : Case) : IO D := do
     loop h d c
   | "v" =>
     match c.prog, c.built with
-    | some p, some B =>
+    | some p, some X =>
+      let B := X.core
       match splitBar (k.t.toList.drop 1) with
-      | [ins, pre, post] =>
+      | [ins, pre0, post0] =>
+        -- `<core outputs> ; <integer variables>` (the second part only for programs with integer-literal variables)
+        let splitSemi (l : List String) : List String × List String :=
+          let (a, b) := l.span (· != ";")
+          (a, b.drop 1)
+        let (pre, preI) := splitSemi pre0
+        let (post, postI) := splitSemi post0
         let ρ? := ins.mapM parseBits
         match ρ? with
         | none => loop h d c
         | some ρ =>
           let c := { c with anyOor := c.anyOor || (oorFlags ρ B.nodes).any id }
-          let spec := run p ρ none
+          let spec : Option (List Val × List IVal) := if c.useX then runX p ρ [] none else (run p ρ none).map fun e => (e, [])
           let nTop := if pre == ["-"] then post.length else pre.length
           match spec with
           | none => loop h { d with oor := d.oor + 1 } { c with oorVals := c.oorVals + 1 }
-          | some env =>
+          | some (env, ienv) =>
             let model := (outputs ρ B).map showBits
+            let modelI := (outputsI ρ X).map fun kv => showBits kv.2
             let specS := env.map showBits
+            let specI := ienv.map fun kv => toString (ival kv.1 kv.2)
+            let nI := if pre == ["-"] then postI.length else preI.length
+            -- an implementation value of an integer variable agrees with the interpreter if it stands for the same integer
+            let intOk (impl : List String) : Bool :=
+              impl.length == nI && ((impl.zip (ienv.take nI)).all fun (s, kv) =>
+                match parseBits s with
+                | some b => ival kv.1 b == ival kv.1 kv.2
+                | none => false)
             let mut d := { d with vals := d.vals + 1, ops := d.ops + B.nodes.size + 1 }
             let mut c := { c with okVals := c.okVals + 1 }
             let inS := " ".intercalate ins
-            for (tag, impl) in [("pre", pre), ("post", post)] do
+            for (tag, impl, implI) in [("pre", pre, preI), ("post", post, postI)] do
               if impl == ["-"] then continue
-              if impl != specS.take nTop && !c.reportedP then
+              if (impl != specS.take nTop || !intOk implI) && !c.reportedP then
                 -- classification for the replay file: postprocess() changed a value the un-postprocessed circuit had right
                 -- / no pre-simulation available (Node_Default) while the model agrees with the interpreter / the frontend itself
-                let sig := if tag == "post" && pre != ["-"] && pre == specS.take nTop then "postprocess-changed-value"
-                           else if tag == "post" && pre == ["-"] && model.take nTop == specS.take nTop then "not-sequential-no-pre-simulation"  -- frontend or postprocess(): cannot be told apart without a pre-simulation
+                let preOk := pre != ["-"] && pre == specS.take nTop && intOk preI
+                let sig := if tag == "post" && preOk then "postprocess-changed-value"
+                           else if tag == "post" && pre == ["-"] && model.take nTop == specS.take nTop && intOk (modelI.take nI) then "not-sequential-no-pre-simulation"  -- frontend or postprocess(): cannot be told apart without a pre-simulation
                            else "frontend-not-sequential"
-                IO.println s!"PROPFAIL case={c.id} sig={sig} stage={tag} inputs=[{inS}] sequential=[{" ".intercalate specS}] impl=[{" ".intercalate impl}]"
+                IO.println s!"PROPFAIL case={c.id} sig={sig} stage={tag} inputs=[{inS}] sequential=[{" ".intercalate specS} ; {" ".intercalate specI}] impl=[{" ".intercalate impl} ; {" ".intercalate implI}]"
                 d := { d with propfails := d.propfails + 1 }
                 c := { c with reportedP := true }
               -- outputs whose model value depends on an out-of-range multiplexer are not compared with the model
               let tv := taint ρ B.nodes
               let tainted := (B.sigs.take nTop).map fun s => tv.getD s.driver false
-              let hit := tainted.any id
-              let same := impl.length == nTop &&
-                ((impl.zip (model.take nTop)).zip tainted).all (fun ((a, b), tnt) => tnt || a == b)
+              let taintedI := (X.ivars.take nI).map fun s => tv.getD s.driver false
+              let hit := tainted.any id || taintedI.any id
+              let same := impl.length == nTop && implI.length == nI &&
+                ((impl.zip (model.take nTop)).zip tainted).all (fun ((a, b), tnt) => tnt || a == b) &&
+                ((implI.zip (modelI.take nI)).zip taintedI).all (fun ((a, b), tnt) => tnt || a == b)
               if hit then d := { d with undefSkipped := d.undefSkipped + 1 }
               if !same && !c.reported then
-                IO.println s!"DIFF case={c.id} stage={tag} inputs=[{inS}] model=[{" ".intercalate model}] impl=[{" ".intercalate impl}]"
+                IO.println s!"DIFF case={c.id} stage={tag} inputs=[{inS}] model=[{" ".intercalate model} ; {" ".intercalate modelI}] impl=[{" ".intercalate impl} ; {" ".intercalate implI}]"
                 d := { d with diffs := d.diffs + 1 }
                 c := { c with reported := true }
             loop h d c
